@@ -1293,3 +1293,11 @@ Lemma failed_executor_released :
   let '(s', u) := step s (ODestroy 0 true false true false) in
   o_rc u = 0 /\ owns_some 0 (s_roster s') = false /\ length (s_roster s') = 2%nat /\ o_kills u = [].
 Proof. vm_compute. repeat split; reflexivity. Qed.
+
+(* C06: destroy_order read over histories - in every state any history of requests can reach, when
+   the teardown comes to its DESTROY hooks the only tasks the environment still owns are the
+   DESTROY hook tasks themselves *)
+Lemma destroy_order_reachable force e s x r1 :
+  reachable s -> find_env e (s_envs s) = Some x -> td_hookr (teardown force e s) = Some r1 ->
+  forall t, In t r1 -> owner_is e t = true -> In (t_id t) (destroy_hook_tids x).
+Proof. intro R. exact (destroy_order force e s x r1 (reachable_inv s R)). Qed.
